@@ -6,7 +6,6 @@
 package sched
 
 import (
-	"bytes"
 	"fmt"
 	"runtime"
 	"strconv"
@@ -53,17 +52,6 @@ type Exec struct {
 }
 
 var active atomic.Pointer[Exec]
-
-func goid() int64 {
-	var buf [64]byte
-	n := runtime.Stack(buf[:], false)
-	// "goroutine 123 ["
-	b := buf[:n]
-	b = b[len("goroutine "):]
-	i := bytes.IndexByte(b, ' ')
-	id, _ := strconv.ParseInt(string(b[:i]), 10, 64)
-	return id
-}
 
 // Managed reports whether the caller is a harness thread currently running under the scheduler.
 func Managed() bool {
